@@ -217,12 +217,12 @@ def make_args(arm, form, p, sample_shape, j):
     extra = dict(static)
     if sample_shape:
         extra["sample_shape"] = Const(tuple(sample_shape))
-    if arm in ("pos", "closure-pos"):
+    if arm in ("pos", "closure-pos", "gen-pos"):
         pos = tuple(p[n] for n in names)
         if extra:
             return (pos, extra), True
         return pos, False
-    if arm in ("kw", "closure-kw"):
+    if arm in ("kw", "closure-kw", "gen-kw"):
         return ((), {**{n: p[n] for n in names}, **extra}), True
     if arm == "mixed":
         return (tuple(p[n] for n in names[:j]), {**{n: p[n] for n in names[j:]}, **extra}), True
@@ -231,10 +231,12 @@ def make_args(arm, form, p, sample_shape, j):
 
 def arm_possible(arm, form):
     n = len(form.params)
-    if arm in ("pos", "closure-pos"):
+    if arm in ("pos", "closure-pos", "gen-pos"):
         return form.npos == n and not form.static
     if arm == "mixed":
         return n >= 2 and form.npos >= 1
+    if arm == "gen-kw":
+        return not form.static  # non-array TFP kwargs (dtype=...) cannot cross a @gen trace site
     return True
 
 
@@ -246,6 +248,7 @@ OPSETS = {
     "light": ("sim", "assess", "imp"),
     "lponly": ("assess", "imp") + _UPD,    # no sampler: the trace comes from importance(full constraint)
     "score-only": ("assess", "imp"),
+    "lp-lite": ("assess", "imp", "updVA", "updM"),
     "lp+fresh": ("assess", "imp", "impE", "impM") + _UPD,          # 2 sampler instances
     # reduced sets for wrappers whose TFP log_prob costs 4-17 CPU-seconds of compile time per instance
     "core": ("sim", "assess", "updVA"),
@@ -255,39 +258,62 @@ OPSETS = {
     "imp-only": ("imp",),
     "fresh-min": ("impE",),
     "upd-min": ("updA", "updM"),
+    # `dist(...) @ "x"` inside a @gen function
+    "gen-full": ("sim", "assess", "imp", "updA", "updVA"),
+    "gen-lp": ("assess", "imp", "updVA"),
 }
 LPONLY_OPS = ("assess", "imp") + _UPD
 
 
-def gfi_ops(D, arm, a0, a1, uses_kw, key, v0, v1, mflag, ops):
+def gfi_ops(D, arm, mk, p0, p1, key, v0, v1, mflag, ops):
     """The GFI operations of one case on the REAL wrapper. Returns a flat dict of arrays.
 
-    `v0`: an in-support value used to build the starting trace when `sim` is not in `ops`."""
+    `mk(p)` builds the argument package of the arm from a parameter dict; `v0`: an in-support
+    value used to build the starting trace when `sim` is not in `ops`."""
     import jax
     from genjax import ChoiceMap, Diff
     from genjax import ChoiceMapBuilder as C
 
     ks = jax.random.split(key, 6)
     out = {}
+    a0, uses_kw = mk(p0)
+    a1, _ = mk(p1)
     closure = arm.startswith("closure")
+    wrap = C.v
+    val = lambda tr: tr.get_choices().get_value()  # noqa: E731
     if closure:
         gf = D(*a0[0], **a0[1]) if uses_kw else D(*a0)
-        A0 = ()
+        A0, AD_same, AD_new = (), None, None
+    elif arm.startswith("gen"):
+        # the usual user path: `dist(*args, **kwargs) @ addr` inside a @gen function
+        import genjax
+
+        @genjax.gen
+        def model(p):
+            a, ukw = mk(p)
+            if ukw:
+                return D(*a[0], **a[1]) @ "x"
+            return D(*a) @ "x"
+
+        gf = model
+        A0, AD_same, AD_new = (p0,), Diff.no_change((p0,)), Diff.unknown_change((p1,))
+        wrap = lambda v: C["x"].set(v)  # noqa: E731
+        val = lambda tr: tr.get_choices()["x"]  # noqa: E731
     else:
         gf = D.handle_kwargs() if uses_kw else D
-        A0 = a0
+        A0, AD_same, AD_new = a0, Diff.no_change(a0), Diff.unknown_change(a1)
     tr = None
     if "sim" in ops:
         tr = gf.simulate(ks[0], A0)
         out["sim.value"] = tr.get_retval()
         out["sim.score"] = tr.get_score()
-        out["sim.choice"] = tr.get_choices().get_value()
+        out["sim.choice"] = val(tr)
     if "assess" in ops:
-        s, r = gf.assess(C.v(v1), A0)
+        s, r = gf.assess(wrap(v1), A0)
         out["assess.score"] = s
         out["assess.value"] = r
     if "imp" in ops:
-        trI, wI = gf.importance(ks[1], C.v(v1), A0)
+        trI, wI = gf.importance(ks[1], wrap(v1), A0)
         out["imp.weight"] = wI
         out["imp.score"] = trI.get_score()
         out["imp.value"] = trI.get_retval()
@@ -297,26 +323,26 @@ def gfi_ops(D, arm, a0, a1, uses_kw, key, v0, v1, mflag, ops):
         out["impE.score"] = trE.get_score()
         out["impE.value"] = trE.get_retval()
     if "impM" in ops:
-        trM, wM = gf.importance(ks[3], C.v(v1).mask(mflag), A0)
+        trM, wM = gf.importance(ks[3], wrap(v1).mask(mflag), A0)
         out["impM.weight"] = wM
         out["impM.score"] = trM.get_score()
         out["impM.value"] = trM.get_retval()
     if any(u in ops for u in _UPD) and not closure:  # closure.edit belongs to C32
         if tr is None:
-            tr, w0 = gf.importance(ks[0], C.v(v0), A0)
+            tr, w0 = gf.importance(ks[0], wrap(v0), A0)
             out["imp0.weight"] = w0
             out["imp0.score"] = tr.get_score()
             out["imp0.value"] = tr.get_retval()
         plan = {
-            "updV": (ks[4], lambda: C.v(v1), lambda: Diff.no_change(a0)),
-            "updA": (ks[4], lambda: ChoiceMap.empty(), lambda: Diff.unknown_change(a1)),
-            "updVA": (ks[4], lambda: C.v(v1), lambda: Diff.unknown_change(a1)),
-            "updM": (ks[5], lambda: C.v(v1).mask(mflag), lambda: Diff.unknown_change(a1)),
+            "updV": (ks[4], lambda: wrap(v1), AD_same),
+            "updA": (ks[4], lambda: ChoiceMap.empty(), AD_new),
+            "updVA": (ks[4], lambda: wrap(v1), AD_new),
+            "updM": (ks[5], lambda: wrap(v1).mask(mflag), AD_new),
         }
         for u in _UPD:
             if u in ops:
                 k, chm, argd = plan[u]
-                t1, w1, _, _ = gf.update(k, tr, chm(), argd())
+                t1, w1, _, _ = gf.update(k, tr, chm(), argd)
                 out[f"{u}.weight"] = w1
                 out[f"{u}.score"] = t1.get_score()
                 out[f"{u}.value"] = t1.get_retval()
@@ -372,6 +398,9 @@ class Judge:
         self.ss = tuple(sample_shape)
         self.edge = edge
         self.cond = f"{arm},{mode}" + (",sample-shape" if self.ss else "")
+        self.second = None      # set per case: (iso_fn, f64_fn) lazily evaluated second opinions
+        self.case_id = None
+        self.unstable = set()   # case ids whose expectations were found ill-conditioned
 
     def sig(self, op, field):
         return f"{P}|op={op}|on={self.entry.name}|field={field}|cond={self.cond}"
@@ -385,11 +414,71 @@ class Judge:
         w.update(case)
         return w
 
-    def score(self, op, field, obs, exp, mags, terms, case):
+    SAMPLED = ("sim.value", "impE.value", "impM.value")
+
+    def second_opinion(self, obs, exp, deps, terms):
+        """Called only when `obs` and the (cheap, flattened-batch) oracle value `exp` disagree.
+        Returns "ok" / "skip" / "bad".
+
+        The wrapper calls TFP, so a wrapper defect shows up against EVERY way of evaluating TFP,
+        while float32 rounding of an ill-conditioned density (far-tail truncation normalisers,
+        sums of huge terms of both signs, XLA simplifying log(exp(y)) when the sampled value lives
+        in the same graph) does not.  Second opinions: (1) `iso`: TFP evaluated with exactly the
+        call structure the wrapper uses (one log_prob per pair, same jit/vmap mode); (2) a float64
+        evaluation, whose distance from the float32 ones measures the float32 evaluation noise."""
+        if self.second is None or not deps:
+            return "bad"
+        iso_fn, f64_fn = self.second
+        sampled = any(d.split(":", 1)[1] in self.SAMPLED for _, d in deps)
+        try:
+            e_iso = sum(sg * float(iso_fn(d)) for sg, d in deps)
+        except Exception:
+            e_iso = np.nan
+        obs = float(obs)
+        if np.isfinite(e_iso) and np.isfinite(obs):
+            m = sum(abs(float(iso_fn(d))) for _, d in deps)
+            if abs(obs - e_iso) <= (common.ATOL + common.RTOL * m) * np.sqrt(max(terms, 1)):
+                self.ctx.count("agreed_with_same_structure_oracle")
+                return "ok"
+        elif not np.isnan(e_iso) and obs == e_iso:
+            self.ctx.count("agreed_with_same_structure_oracle")
+            return "ok"
+        if sampled and not (np.isfinite(obs) and np.isfinite(float(exp)) and np.isfinite(e_iso)):
+            # value sampled inside the same compiled graph, sitting on an overflow / support
+            # boundary: in-graph and materialised evaluations legitimately differ
+            self.ctx.count("skipped_nonfinite_expectation_on_sampled_value")
+            return "skip"
+        try:
+            pairs = [(sg, f64_fn(d)) for sg, d in deps]
+            e_64 = sum(sg * float(x[0]) for sg, x in pairs)
+            noise = sum(float(x[1]) for _, x in pairs)
+        except Exception:
+            e_64, noise = np.nan, 0.0
+        if np.isfinite(e_64) and np.isfinite(obs) and np.isfinite(float(exp)):
+            noise += abs(float(exp) - e_64) + (abs(e_iso - e_64) if np.isfinite(e_iso) else 0.0)
+            m = abs(e_64)
+            if abs(obs - e_64) <= (common.ATOL + common.RTOL * m) * np.sqrt(max(terms, 1)) + 4.0 * noise:
+                self.ctx.count("excused_float32_noise_of_ill_conditioned_density")
+                return "skip"
+        import os
+
+        if os.environ.get("C24_DEBUG"):
+            print("SECOND-OPINION bad:", self.entry.name, deps, "obs", obs, "exp", float(exp), "iso", e_iso, "f64", e_64, "noise", noise, flush=True)
+        return "bad"
+
+    def score(self, op, field, obs, exp, mags, terms, case, deps=()):
         ok = _scale_close(obs, exp, mags, terms)
         if ok is None:
             self.ctx.count("skipped_nan_expectation")
             return
+        if not ok:
+            verdict = self.second_opinion(obs, exp, deps, terms)
+            if verdict == "skip":
+                self.unstable.add(self.case_id)
+                return
+            ok = verdict == "ok"
+            if ok:
+                self.unstable.add(self.case_id)
         nontrivial = np.isfinite(exp) and not (exp == 0.0 and not mags)
         self.ctx.evaluation(self.fp(f"{op}.{field}"), nontrivial=bool(nontrivial))
         self.ctx.count("score_evaluations")
@@ -445,7 +534,7 @@ def judge_case(J, out, orc, p0, v0, v1, mflag, tfp_direct, exp_shape, case):
             inside = True
             ctx.count("support_predicate_error")
         if not inside:
-            direct = tfp_direct() if k == "sim.value" else None
+            direct = tfp_direct(k) if not J.arm.startswith("gen") else None  # a @gen function derives sub-keys
             if direct is not None and np.array_equal(np.asarray(direct), v, equal_nan=True):
                 ctx.count("support_edge_same_as_tfp_direct")
             elif J.edge:
@@ -458,62 +547,70 @@ def judge_case(J, out, orc, p0, v0, v1, mflag, tfp_direct, exp_shape, case):
     ctx.count(f"cases:{entry.name}")
     if "sim.value" in out:
         J.value("simulate", "choice", out["sim.choice"], out["sim.value"], case)
-        J.score("simulate", "score", out["sim.score"], L0("sim.value"), [], nterms, case)
+        J.score("simulate", "score", out["sim.score"], L0("sim.value"), [], nterms, case, [(1, "lp0:sim.value")])
     if "assess.score" in out:
-        J.score("assess", "score", out["assess.score"], L0("v1"), [], nterms, case)
+        J.score("assess", "score", out["assess.score"], L0("v1"), [], nterms, case, [(1, "lp0:v1")])
         J.value("assess", "retval", out["assess.value"], v1, case)
     if "imp.weight" in out:
-        J.score("importance", "weight", out["imp.weight"], L0("v1"), [], nterms, case)
-        J.score("importance", "score", out["imp.score"], L0("v1"), [], nterms, case)
+        J.score("importance", "weight", out["imp.weight"], L0("v1"), [], nterms, case, [(1, "lp0:v1")])
+        J.score("importance", "score", out["imp.score"], L0("v1"), [], nterms, case, [(1, "lp0:v1")])
         J.value("importance", "value", out["imp.value"], v1, case)
     if "imp0.weight" in out:
-        J.score("importance", "weight", out["imp0.weight"], L0("v0"), [], nterms, case)
-        J.score("importance", "score", out["imp0.score"], L0("v0"), [], nterms, case)
+        J.score("importance", "weight", out["imp0.weight"], L0("v0"), [], nterms, case, [(1, "lp0:v0")])
+        J.score("importance", "score", out["imp0.score"], L0("v0"), [], nterms, case, [(1, "lp0:v0")])
         J.value("importance", "value", out["imp0.value"], v0, case)
     if "impE.weight" in out:
         J.score("importance-empty", "weight", out["impE.weight"], 0.0, [], 1, case)
-        J.score("importance-empty", "score", out["impE.score"], L0("impE.value"), [], nterms, case)
+        J.score("importance-empty", "score", out["impE.score"], L0("impE.value"), [], nterms, case, [(1, "lp0:impE.value")])
     if "impM.weight" in out:
         if mflag:
-            J.score("importance-masked", "weight", out["impM.weight"], L0("v1"), [], nterms, case)
-            J.score("importance-masked", "score", out["impM.score"], L0("v1"), [], nterms, case)
+            J.score("importance-masked", "weight", out["impM.weight"], L0("v1"), [], nterms, case, [(1, "lp0:v1")])
+            J.score("importance-masked", "score", out["impM.score"], L0("v1"), [], nterms, case, [(1, "lp0:v1")])
             J.value("importance-masked", "value", out["impM.value"], v1, case)
         else:
             J.score("importance-masked", "weight", out["impM.weight"], 0.0, [], 1, case)
-            J.score("importance-masked", "score", out["impM.score"], L0("impM.value"), [], nterms, case)
+            J.score("importance-masked", "score", out["impM.score"], L0("impM.value"), [], nterms, case, [(1, "lp0:impM.value")])
     if not any(f"{u}.weight" in out for u in _UPD):
         return
     if "sim.value" in out:
         old_val = out["sim.value"]
         old0 = L0("sim.value")
         old1 = float(orc.get("lp1:sim.value", np.nan))
+        src = "sim.value"
     else:
         old_val = v0
         old0, old1 = L0("v0"), L1("v0")
+        src = "v0"
 
-    def upd(op, key, new_lp, new_val):
+    def upd(op, key, new_lp, new_val, newdep):
         if f"{key}.weight" not in out:
             return
         with np.errstate(invalid="ignore"):
-            J.score(op, "weight", out[f"{key}.weight"], new_lp - old0, [new_lp, old0], nterms, case)
-        J.score(op, "score", out[f"{key}.score"], new_lp, [], nterms, case)
+            J.score(op, "weight", out[f"{key}.weight"], new_lp - old0, [new_lp, old0], nterms, case, [(1, newdep), (-1, f"lp0:{src}")])
+        J.score(op, "score", out[f"{key}.score"], new_lp, [], nterms, case, [(1, newdep)])
         J.value(op, "value", out[f"{key}.value"], new_val, case)
 
-    upd("update-value", "updV", L0("v1"), v1)
-    upd("update-args", "updA", old1, old_val)
-    upd("update-value-args", "updVA", L1("v1"), v1)
+    upd("update-value", "updV", L0("v1"), v1, "lp0:v1")
+    upd("update-args", "updA", old1, old_val, f"lp1:{src}")
+    upd("update-value-args", "updVA", L1("v1"), v1, "lp1:v1")
     if mflag:
-        upd("update-masked", "updM", L1("v1"), v1)
+        upd("update-masked", "updM", L1("v1"), v1, "lp1:v1")
     else:
-        upd("update-masked", "updM", old1, old_val)
+        upd("update-masked", "updM", old1, old_val, f"lp1:{src}")
 
 
 def judge_equivalence(ctx, entry, form, armA, armB, mode, bs, ss, outA, outB, case):
     """Same key, same parameters, different invocation style -> same observables."""
     cond = f"{armA}-vs-{armB},{mode}" + (",sample-shape" if ss else "")
+    same_origin = ("sim.value" in outA) == ("sim.value" in outB)
+    gen = armA.startswith("gen") or armB.startswith("gen")
     for k in outA:
         if k not in outB:
             continue
+        if k.startswith("upd") and not same_origin:
+            continue  # updates started from different traces (simulate vs fully constrained)
+        if gen and (k.startswith("sim") or (k.startswith("upd") and "sim.value" in outA)):
+            continue  # a @gen function derives sub-keys: sampled values legitimately differ
         a, b = np.asarray(outA[k]), np.asarray(outB[k])
         ctx.count("equivalence_evaluations")
         ctx.evaluation((entry.name, form.tag, armA, armB, mode, tuple(bs), tuple(ss), k), nontrivial=True)
@@ -523,7 +620,7 @@ def judge_equivalence(ctx, entry, form, armA, armB, mode, bs, ss, outA, outB, ca
             if np.isnan(a) and np.isnan(b):
                 ok = True
             else:
-                ok = common.close(a, b)
+                ok = common.close(a, b, rtol=2 * common.RTOL, atol=2 * common.ATOL)
         if not ok:
             op, field = k.split(".")
             ctx.violation(f"{P}|op={op}|on={entry.name}|field={field}-equivalence|cond={cond}",
@@ -622,24 +719,93 @@ def run_scenario(ctx, genjax, tfd, entry, form, sc, sid):
         return False
     _direct = {}
 
-    def tfp_direct(mode, i):
-        """What TFP itself draws for the key that simulate hands to the sampler (same mode).
+    def tfp_direct(mode, i, which="sim.value"):
+        """What TFP itself draws for the key that the operation hands to the sampler (same mode).
         Only computed when a sample fell outside the support: identical => TFP's numerics."""
+        ki = {"sim.value": 0, "impE.value": 2, "impM.value": 3}[which]
         try:
             if mode == "jit" and use_vmap:
-                if "jit" not in _direct:
-                    _direct["jit"] = np.asarray(jax.jit(jax.vmap(lambda s1, p0: samp(jax.random.split(jax.random.key(s1), 6)[0], p0)))(jnp.asarray(seeds[:, 0]), p0s))
-                return _direct["jit"][i]
-            return np.asarray(samp(jax.random.split(jax.random.key(int(seeds[i, 0])), 6)[0], P0j(p0s, i)))
+                if which not in _direct:
+                    _direct[which] = np.asarray(jax.jit(jax.vmap(lambda s1, p0: samp(jax.random.split(jax.random.key(s1), 6)[ki], p0)))(jnp.asarray(seeds[:, 0]), p0s))
+                return _direct[which][i]
+            return np.asarray(samp(jax.random.split(jax.random.key(int(seeds[i, 0])), 6)[ki], P0j(p0s, i)))
         except Exception:
             return None
+
+    ctor_direct = _ctor(entry, tfd)
+    static_direct = _static_kwargs(form)
+
+    def make_second(mode, cases, idx):
+        """Lazy second opinions for one run: iso(dep)[t], f64(dep, t) (see Judge.second_opinion)."""
+        cache = {}
+
+        def pieces(dep):
+            which, src = dep.split(":", 1)
+            ps = p0s if which == "lp0" else p1s
+            vals = [v0s[i] if src == "v0" else (v1s[i] if (src == "v1" or src not in c) else np.asarray(c[src])) for c, i in zip(cases, idx)]
+            return ps, vals
+
+        def one(p, v):
+            return jnp.sum(ctor_direct(**p, **static_direct).log_prob(v))
+
+        def iso(dep):
+            if dep not in cache:
+                ps, vals = pieces(dep)
+                if mode == "jit" and use_vmap:
+                    sub = {k: x[jnp.asarray(idx)] for k, x in ps.items()}
+                    r = jax.jit(jax.vmap(one))(sub, jnp.asarray(np.stack(vals)))
+                elif mode == "jit":
+                    fn = jax.jit(one)
+                    r = [fn(P0j(ps, i), jnp.asarray(v)) for i, v in zip(idx, vals)]
+                else:
+                    r = [one(P0j(ps, i), jnp.asarray(v)) for i, v in zip(idx, vals)]
+                cache[dep] = np.asarray(r, dtype=np.float64)
+            return cache[dep]
+
+        float_params = [nm for nm, kind in form.params if kind != "count"]
+        f64cache = {}
+
+        def f64(dep, t):
+            """(float64 value, float32 noise estimate) for case position t: noise = how far float32
+            evaluations of TFP's formula sit from float64 ones on inputs within a float32 ulp, plus how
+            far the float64 value itself moves under such input perturbations (conditioning)."""
+            from jax.experimental import enable_x64
+
+            if (dep, t) in f64cache:
+                return f64cache[(dep, t)]
+            ps, vals = pieces(dep)
+            i = idx[t]
+            prng = np.random.default_rng([int(seeds[i, 0]), 99])
+            p32 = {k: np.asarray(x[i]) for k, x in ps.items()}
+            v32 = np.asarray(vals[t])
+            isf = np.issubdtype(v32.dtype, np.floating)
+            xs = [(p32, v32)]
+            for _ in range(5):
+                pp = dict(p32)
+                for nm in float_params:
+                    pp[nm] = (p32[nm] * (1.0 + prng.uniform(-1.2e-7, 1.2e-7, size=np.shape(p32[nm])))).astype(np.float32)
+                vv = (v32 * (1.0 + prng.uniform(-1.2e-7, 1.2e-7, size=np.shape(v32)))).astype(v32.dtype) if isf and entry.support not in ("countvec", "upto_count", "nat", "int", "pos_int") else v32
+                xs.append((pp, vv))
+            l32 = [float(one({k: jnp.asarray(x) for k, x in p.items()}, jnp.asarray(v))) for p, v in xs]
+            l64 = []
+            with enable_x64():
+                for p, v in xs:
+                    p64 = {k: jnp.asarray(np.asarray(x, dtype=np.float64)) for k, x in p.items()}
+                    v64 = jnp.asarray(v.astype(np.float64) if isf else v)
+                    l64.append(float(jnp.sum(ctor_direct(**p64, **static_direct).log_prob(v64))))
+            fin = [(a, b) for a, b in zip(l32, l64) if np.isfinite(a) and np.isfinite(b)]
+            noise = 0.0
+            if fin:
+                noise = max(abs(a - b) for a, b in fin) + max(abs(b - l64[0]) for _, b in fin if np.isfinite(l64[0])) if np.isfinite(l64[0]) else max(abs(a - b) for a, b in fin)
+            f64cache[(dep, t)] = (l64[0], noise)
+            return f64cache[(dep, t)]
+
+        return iso, f64
 
     def sys_fn(arm, ops):
         def f(s1, p0, p1, v0, v1, mflag):
             key = jax.random.key(s1)
-            a0, ukw = make_args(arm, form, p0, ss, j)
-            a1, _ = make_args(arm, form, p1, ss, j)
-            return gfi_ops(D, arm, a0, a1, ukw, key, v0, v1, mflag, ops)
+            return gfi_ops(D, arm, lambda p: make_args(arm, form, p, ss, j), p0, p1, key, v0, v1, mflag, ops)
 
         return f
 
@@ -692,6 +858,7 @@ def run_scenario(ctx, genjax, tfd, entry, form, sc, sid):
         return outl
 
     done = []
+    unstable_cases = set()
     for run in sc["runs"]:
         arm, mode, opset = run["arm"], run["mode"], run["ops"]
         ops = OPSETS[opset]
@@ -720,7 +887,7 @@ def run_scenario(ctx, genjax, tfd, entry, form, sc, sid):
                         o = sys_fn(arm, eops)(int(seeds[i, 0]), P0j(p0s, i), P0j(p1s, i), jnp.asarray(v0s[i]), jnp.asarray(v1s[i]), fl)
                         cases.append(_np_tree(o))
             dep = [w for w in wlist if issubclass(w.category, DeprecationWarning) and "bare argument" in str(w.message)]
-            if form.bare and arm in ("pos", "closure-pos") and not ss:
+            if form.bare and arm in ("pos", "closure-pos", "gen-pos"):
                 ctx.count("bare_argument_invocations")
                 if dep:
                     ctx.count("bare_argument_deprecation_warning_seen")
@@ -740,6 +907,7 @@ def run_scenario(ctx, genjax, tfd, entry, form, sc, sid):
             # the oracle cannot score what the wrapper returned (e.g. wrong shape): judge shapes only
             ctx.note(f"oracle could not score {entry.name}/{form.tag}/{arm}: {type(e).__name__}: {str(e)[:160]}")
             lps = None
+        iso_f, f64_f = make_second(mode, cases, idx)
         for t, (c, i) in enumerate(zip(cases, idx)):
             case = {"params": _np_tree(P0j(p0s, i)), "new_params": _np_tree(P0j(p1s, i)), "seed_pair": [int(seeds[i, 0]), int(seeds[i, 1])],
                     "constraint_value": np.asarray(v1s[i]), "mask_flag": bool(flags[i])}
@@ -752,7 +920,9 @@ def run_scenario(ctx, genjax, tfd, entry, form, sc, sid):
                     if tuple(v.shape) != exp_shape:
                         ctx.violation(J.sig("simulate", "shape"), detail=f"sample shape {tuple(v.shape)}, TFP {exp_shape}", **J.witness(case))
                 continue
-            judge_case(J, c, lps[t], _np_tree(P0j(p0s, i)), np.asarray(v0s[i]), np.asarray(v1s[i]), bool(flags[i]), (lambda m=mode, ii=i: tfp_direct(m, ii)), exp_shape, case)
+            J.second = ((lambda d, tt=t: iso_f(d)[tt]), (lambda d, tt=t: f64_f(d, tt)))
+            J.case_id = i
+            judge_case(J, c, lps[t], _np_tree(P0j(p0s, i)), np.asarray(v0s[i]), np.asarray(v1s[i]), bool(flags[i]), (lambda which, m=mode, ii=i: tfp_direct(m, ii, which)), exp_shape, case)
         k = len(idx)
         ctx.count(f"mode:{mode}", k)
         if mode == "jit":
@@ -769,6 +939,7 @@ def run_scenario(ctx, genjax, tfd, entry, form, sc, sid):
                         "sample_shape": list(ss), "params": _np_tree(P0j(p0s, 0)), "sim_value": cases[0]["sim.value"],
                         "sim_score": float(cases[0]["sim.score"]), "tfp_log_prob": None if lps is None else float(lps[0]["lp0:sim.value"])}, limit=3)
         done.append((arm, mode, idx, cases))
+        unstable_cases |= J.unstable
 
     # ---- invocation equivalence: same mode, same cases, different arm
     for a_i in range(len(done)):
@@ -778,6 +949,9 @@ def run_scenario(ctx, genjax, tfd, entry, form, sc, sid):
             if modeA != modeB or armA == armB:
                 continue
             for i in sorted(set(idxA) & set(idxB)):
+                if i in unstable_cases:
+                    ctx.count("equivalence_skipped_ill_conditioned")
+                    continue
                 case = {"params": _np_tree(P0j(p0s, i)), "seed_pair": [int(seeds[i, 0]), int(seeds[i, 1])]}
                 judge_equivalence(ctx, entry, form, armA, armB, modeA, bs, ss, casesA[idxA.index(i)], casesB[idxB.index(i)], case)
     return True
@@ -858,7 +1032,7 @@ def scenarios_for(ctx, entry, form, uid):
             dict(bs=bsA, ss=(), edge=False, n=nb, vmap=False, runs=[R(pick(arms), "jit", "upd-min")]),
             dict(bs=pick(bshapes), ss=(), edge=True, n=nb, vmap=False, runs=[R(pick(arms), "jit", "imp-only"), R(pick(arms), "jit", "fresh-min")]),
             dict(bs=pick(bshapes[:2]), ss=pick([(2,), (2, 3)]), edge=False, n=nb, vmap=False, runs=[R(pick(arms), "jit", "sim-only")]),
-            dict(bs=pick(bshapes), ss=(), edge=False, n=nb, vmap=False, runs=[R(base, "jit", "assess-only"), R(cl[0], "jit", "sim+assess")] + [R(a, "jit", "assess-only") for a in cl[1:]]),
+            dict(bs=pick(bshapes), ss=(), edge=False, n=nb, vmap=False, runs=[R(base, "jit", "assess-only"), R(cl[0], "jit", "sim+assess")] + [R(a, "jit", "assess-only") for a in cl[1:]] + [R(a, "jit", "assess-only") for a in ("gen-kw",) if arm_possible(a, form)]),
             dict(bs=pick(bshapes), ss=(), edge=False, n=1, vmap=False, runs=[R(pick(arms), "eager", "sim+assess", cases=1)]),
         ]
         if not q:
@@ -882,10 +1056,10 @@ def scenarios_for(ctx, entry, form, uid):
     #    light (or, for heavy samplers, from a fully constrained trace: no sampler) -- plus eager cases
     if q:
         order = order[:2]
-    second = "lponly" if (q and heavy) else ("light" if q else "full")
+    second = "lp-lite" if (q and heavy) else ("light" if q else "full")
     runsA = [R(order[0], "jit", "full")] + [R(a, "jit", second) for a in order[1:]]
     if q and heavy:
-        runsA.append(R(pick(order), "eager", "lponly", cases=4))
+        runsA.append(R(pick(order), "eager", "lponly", cases=3))
     else:
         runsA.append(R(pick(order), "eager", "full", cases=ctx.pick(4, 8)))
     out.append(dict(bs=(), ss=(), edge=False, n=N, pri=0, runs=runsA))
@@ -903,6 +1077,9 @@ def scenarios_for(ctx, entry, form, uid):
         runsD = [R(base, d_mode, "score-only", cases=2), R(cl[0], d_mode, "light", cases=2)] + [R(a, d_mode, "score-only", cases=2) for a in cl[1:]]
     else:
         runsD = [R(base, d_mode, "light", cases=2), R(cl[0], d_mode, "light", cases=2)] + [R(a, d_mode, "score-only", cases=2) for a in cl[1:]]
+    gens = [a for a in ("gen-pos", "gen-kw") if arm_possible(a, form)]
+    if gens:
+        runsD.append(R(pick(gens), d_mode, "gen-lp" if (q and heavy) else "gen-full", cases=2))
     secondary.append(dict(bs=pick(bshapes), ss=(), edge=False, n=ctx.pick(4, 40), runs=runsD))
     if q and heavy:
         # E. eager simulate (an eager TFP gamma-family sampler call costs seconds)
@@ -921,16 +1098,18 @@ def scenarios_for(ctx, entry, form, uid):
         out.append(dict(bs=(), ss=(), edge=True, n=8, pri=6, runs=[R(pick(arms), "eager", "full+fresh", cases=8)]))
         for s2 in [(2,), (2, 3)]:
             out.append(dict(bs=(3,), ss=s2, edge=False, n=100, pri=6, runs=[R(arms[0], "jit", "full")] + [R(a, "jit", "light") for a in arms[1:2]]))
-        out.append(dict(bs=(3,), ss=(2,), edge=False, n=40, pri=7, runs=[R(base, "jit", "light")] + [R(a, "jit", "light") for a in cl]))
+        out.append(dict(bs=(3,), ss=(2,), edge=False, n=40, pri=7, runs=[R(base, "jit", "light")] + [R(a, "jit", "light") for a in cl] + [R(a, "jit", "gen-full") for a in gens]))
         out.append(dict(bs=(2, 2), ss=(), edge=False, n=6, pri=7, vmap=False, runs=[R(a, "jit", "full") for a in arms[:1]]))
     return out
 
 
-def assign_units(units, nshards, seed):
+def assign_units(units, nshards, seed, quick=False):
     """Greedy balance of units over shards by estimated cost (deterministic; the seed rotates ties)."""
     costs = []
     for uid, (e, f) in enumerate(units):
         c = T.UNIT_COST_BY_NAME.get(e.name, T.UNIT_COST[e.cost])
+        if quick and e.forms[seed % len(e.forms)] is not f:
+            c *= 0.3  # not in the always-run set
         costs.append((c, (uid * 7 + seed * 13) % 101, uid))
     costs.sort(key=lambda t: (-t[0], t[1]))
     load = [0.0] * nshards
@@ -974,18 +1153,28 @@ def _run(ctx, genjax, tfd):
         bare_argument_check(ctx, genjax, tfd)
 
     units = [(e, f) for e in table for f in e.forms]
-    owner = assign_units(units, ctx.nshards, ctx.seed)
+    owner = assign_units(units, ctx.nshards, ctx.seed, ctx.quick())
     mine = [uid for uid in range(len(units)) if owner[uid] == ctx.shard]
-    budget = ctx.pick(60.0, 740.0)
+    # budgets: CPU seconds of this worker (coverage does not depend on how loaded the machine is)
+    # and a wall-clock cap (a badly overloaded machine degrades coverage, never correctness)
+    import os
+
+    cpu_budget = ctx.pick(70.0, 600.0)      # user CPU seconds, including the ~8 s of imports
+    wall_cap = ctx.pick(420.0, 1800.0)
+    cpu = lambda: os.times().user  # noqa: E731
     plans = []
     for uid in mine:
         e, f = units[uid]
+        # quick tier: only one parameterisation of each wrapper (rotating with the seed) is in the
+        # always-run set; the other forms start at priority 1
+        primary = (not ctx.quick()) or e.forms[ctx.seed % len(e.forms)] is f
         for k, sc in enumerate(scenarios_for(ctx, e, f, uid)):
-            plans.append((sc["pri"], k, uid, sc))
+            pri = sc["pri"] if primary else sc["pri"] + 1
+            plans.append((pri, k, uid, sc))
     plans.sort(key=lambda t: (t[0], t[2]))
     for pri, k, uid, sc in plans:
         e, f = units[uid]
-        if pri > 0 and ctx.elapsed() > budget:
+        if pri > 0 and (cpu() > cpu_budget or ctx.elapsed() > wall_cap):
             ctx.count("scenarios_skipped_for_time")
             continue
         ok = run_scenario(ctx, genjax, tfd, e, f, sc, sid=uid * 100 + k)
